@@ -773,8 +773,9 @@ Definition step (comments : bool) (st : St) : M outcome :=
   else
   match unit st with
   | _ :: _ =>
-    (* number with unit: XGo does not skip blanks while a unit is pending, TPL does *)
-    let s := if is_xgo d then sc st else skip_ws (S (length (rest (sc st)))) (semi st) (sc st) in
+    (* number with unit: a pending unit directly follows its number, blanks are not skipped
+       (XGo and, since its repair, TPL; go/scanner has no units) *)
+    let s := sc st in
     Ok (Emit (mkTok (off s - zlen (unit st)) T_UNIT (unit st) (off s)) (mkSt s true (nparen st) [] 0))
   | [] => lex comments st (skip_ws (S (length (rest (sc st)))) (semi st) (sc st))
   end.
